@@ -1,6 +1,6 @@
 SPECIFICATION GenSpec
 CONSTANTS
- Threads = {1,2,3,4}
+ Threads = {1,2,3,4,5,6}
  Main = 1
  MaxNodes = 5
  MaxOps = 1
@@ -10,6 +10,8 @@ CONSTANTS
  AtomicAdopt = TRUE
  RefreshExpected = TRUE
  Free = 0
+ Getters = {2,3,4}
+ Releasers = {}
 VIEW GenView
 INVARIANT NoShare
 INVARIANT ListComplete
